@@ -61,6 +61,8 @@ def classify(file, fn, kind, op, g):
             return (INV, 'ECALRuntimeProvider.NewRuntimeError always returns a *util.RuntimeError')
         if op == 'm.(*engine.RootMonitor)':
             return (INV, 'AddEventAndWait returns the *RootMonitor it was given')
+    if fn == '(*docFunc).Run' and kind == 'index' and 'len(c.Children) > 0' in g:
+        return (GUARD, 'the length test in the key dominates the access')
     if fn == '(*docFunc).Run' and kind == 'index':
         return (AST, 'the call node has a funccall child with at least one argument when len(args) > 0 (fuzzed: doc with every argument vector)')
     if file.endswith('func_provider.go') and kind == 'mapkey':
